@@ -44,3 +44,22 @@ contract(
                                   "PackStoreParentAbs14.get_raw": ("<abstract>", "PackStoreParentAbs14.get_raw@ghost")},
              "asserts": [("midx-hit-needs-live-pack", "=return pack.get_raw(sha)", ["upred('pack_alive', pack_name)"])]},
 )
+
+
+# ---- ParentsProvider.get_parents: grafts and the shallow set win over the commit-graph (and over the commit object) -----------
+class_spec(file="<abstract>", cls="ParentsProviderAbs14", fields={"grafts": "dict[opaque,opaque]", "shallows": "set[opaque]", "commit_graph": "opaque", "store": "opaque"})
+_NOT_OVERRIDDEN = ["not dict_has(self.grafts, commit_id)", "not (commit_id in self.shallows)"]
+contract(
+    prop=["C14"], file="dulwich/repo.py", func="ParentsProvider.get_parents",
+    params={"self": "obj:ParentsProviderAbs14", "commit_id": "opaque", "commit": "opaque"}, returns="opaque", raises={ANY: None},
+    options={"asserts": [("graph-answer-only-if-no-graft-and-not-shallow", "=return parents", _NOT_OVERRIDDEN),
+                         ("object-answer-only-if-no-graft-and-not-shallow", "=return result", _NOT_OVERRIDDEN)]},
+    note="the accelerator's (and the commit object's) parents are returned only for commits without a graft entry that are not shallow",
+)
+contract(
+    prop=["C14", "C05"], file=OS, func="_collect_ancestors",
+    params={"store": "opaque", "heads": "opaque", "common": "set[opaque]", "shallow": "set[opaque]", "get_parents": "opaque"}, returns="opaque", raises={ANY: None},
+    loops={1: dict(invariant=["True"], types={"queue": "list[opaque]", "commits": "set[opaque]", "bases": "set[opaque]"})},
+    options={"asserts": [("parents-queued-only-below-non-shallow-non-common-commits", "queue.extend(parents)", ["not (e in shallow)", "not (e in common)"])]},
+    note="whatever supplies the parents (commit-graph or commit object), the walk never descends below a shallow or a common commit",
+)
